@@ -86,6 +86,18 @@ def serve(arg):
                             val = getattr(ff, jn + "_Q")(Q)
                             out.append({"ev": "eval_mag", "id": "ev:%s:%d:%d:%s:%s" % (T, z, q, jn, Q), "T": T, "z": z, "q": q,
                                         "jn": jn, "Q": dec.to_dec(Q), "coef": sets[jn], "val": dec.enc(float(val))})
+                    # the same sets over one float array of Q, one after the other: the array is the caller's and must come
+                    # back unchanged, and every vector answer is the scalar answer point by point
+                    import numpy
+                    arr = numpy.array([float(Q) for Q in Qs])
+                    keep = arr.copy()
+                    vec = {}
+                    for jn in list(sets) + (["M"] if "j0" in sets else []):
+                        got = numpy.asarray(getattr(ff, jn + "_Q")(arr), dtype=float)
+                        ref = [float(getattr(ff, (jn if jn != "M" else "j0") + "_Q")(float(Q))) for Q in keep]
+                        vec[jn] = {"vec": [dec.enc(float(x)) for x in got.tolist()] if got.shape == keep.shape else [],
+                                   "scalar": [dec.enc(x) for x in ref]}
+                    out.append({"ev": "eval_mag_vec", "id": "evv:%s:%d:%d" % (T, z, q), "kept": bool((arr == keep).all()), "sets": vec})
             except AttributeError:
                 mv["noattr"] = True
             out.append(mv)
